@@ -5,6 +5,14 @@ import PdtVerif.Spec.Transcripts
 /-! Driver for C11: trn / ctm / TextGrid / frame conversion / dispatch table. Glue only. -/
 open Lean Proto PdtVerif.Transcripts
 
+/-- The framework splits the driver's output with Python's `str.splitlines()`, which also breaks at
+U+0085, U+2028 and U+2029; Lean's JSON printer leaves these three unescaped. Strings in replies carry
+them as private-use code points, which `harness/c11.py` maps back. -/
+def safeChar (c : Char) : Char :=
+  if c == '\u0085' then '\uE085' else if c == '\u2028' then '\uE028' else if c == '\u2029' then '\uE029' else c
+
+def sJ (s : String) : Json := Proto.strJ (String.ofList (s.toList.map safeChar))
+
 /-! ### JSON ↔ model values -/
 
 partial def jsonToItem (j : Json) : Except String Item :=
@@ -27,14 +35,14 @@ def jsonToTop (j : Json) : Except String Top :=
   | _ => Top.plain <$> jsonToItem j
 
 partial def itemToJson : Item → Json
-  | .tok s => strJ (String.ofList s)
+  | .tok s => sJ (String.ofList s)
   | .alt bs => Json.arr (bs.map (fun b => Json.arr (b.map itemToJson).toArray)).toArray
 
 def trnErrJ (e : TrnErr) : Json :=
-  objJ [("error", strJ "OSError"), ("which", strJ (match e with | .noUttId => "noUttId" | .emptyAlt => "emptyAlt"))]
+  objJ [("error", sJ "OSError"), ("which", sJ (match e with | .noUttId => "noUttId" | .emptyAlt => "emptyAlt"))]
 
 def entryJ (r : List Char × List Item × Bool) : Json :=
-  objJ [("utt", strJ (String.ofList r.1)), ("t", listJ itemToJson r.2.1), ("found_alt", boolJ r.2.2)]
+  objJ [("utt", sJ (String.ofList r.1)), ("t", listJ itemToJson r.2.1), ("found_alt", boolJ r.2.2)]
 
 def resJ (r : Except TrnErr (List (List Char × List Item × Bool))) : Json :=
   match r with
@@ -55,29 +63,32 @@ def c11Trn : Handler := fun c => do
     pure (u.toList, t)) c "utts"
   let chunk ← getNat c "chunk"
   let text := (utts.map (fun (u, t) => writeTrnLine u t)).flatten
-  let lines := splitLines text
+  -- the file object translates `\r\n` / `\r` to `\n` before the lines are iterated (text mode)
+  let lines := pyLines (universalNewlines text)
   let inDom := utts.all (fun (u, t) => uttOk u && seqOk false (t.map Top.item))
   let depth := utts.foldl (fun d (_, t) => max d (seqDepth (t.map Top.item))) 0
   -- C11_trn / C11_trn_file / C11_workers say: in the domain the model returns the spec
   let specJ := listJ (fun (u, t) => objJ [("t", listJ itemToJson (t.map Top.item)),
-      ("utt", strJ (String.ofList u))]) utts
+      ("utt", sJ (String.ofList u))]) utts
   let plain := fun (r : Except TrnErr (List (List Char × List Item × Bool))) => match r with
     | .ok l => listJ (fun (e : List Char × List Item × Bool) =>
-        objJ [("t", listJ itemToJson e.2.1), ("utt", strJ (String.ofList e.1))]) l
+        objJ [("t", listJ itemToJson e.2.1), ("utt", sJ (String.ofList e.1))]) l
     | .error _ => Json.null
   if inDom && (plain (readTrnSeq lines)).compress != specJ.compress then
     throw "internal: model != spec inside the domain of C11_trn"
   if (plain (readTrnPool chunk lines)).compress != (plain (readTrnSeq lines)).compress then
     throw "internal: pool model != sequential model (C11_workers)"
   pure (objJ [
-    ("text", strJ (String.ofList text)),
+    ("text", sJ (String.ofList text)),
     ("read", resJ (readTrnSeq lines)),
     ("pool", resJ (readTrnPool chunk lines)),
     -- the same file written through `open(..., newline="\r\n")` and read without newline translation
-    ("read_crlf_raw", resJ (readTrnSeq (pyLines (crlf text)))),
+    -- (with `newline=""` the line ends are kept but lines still end at `\r`, `\n` or `\r\n`; the ends are
+    -- white space to `strip`, so this is the text-mode reading of the CRLF characters)
+    ("read_crlf_raw", resJ (readTrnSeq (pyLines (universalNewlines (crlf text))))),
     ("in_domain", boolJ inDom),
     ("depth", natJ depth),
-    ("spec", listJ (fun (u, t) => objJ [("utt", strJ (String.ofList u)),
+    ("spec", listJ (fun (u, t) => objJ [("utt", sJ (String.ofList u)),
         ("t", listJ itemToJson (t.map Top.item))]) utts)])
 
 def c11TrnLine : Handler := fun c => do
@@ -95,7 +106,7 @@ def jsonToTimed (j : Json) : Except String Timed := do
   | [t, s, e] => do pure (← t.getStr?, ← jsonToRat s, ← jsonToRat e)
   | _ => throw "timed must be [tok, s, e]"
 
-def timedJ (x : Timed) : Json := Json.arr #[strJ x.1, ratToJson x.2.1, ratToJson x.2.2]
+def timedJ (x : Timed) : Json := Json.arr #[sJ x.1, ratToJson x.2.1, ratToJson x.2.2]
 
 def jsonToTranscripts (j : Json) : Except String Transcripts :=
   jsonToList (fun ut => do
@@ -105,10 +116,10 @@ def jsonToTranscripts (j : Json) : Except String Transcripts :=
     | _ => throw "transcript must be [utt, [...]]") j
 
 def transcriptsJ (ts : Transcripts) : Json :=
-  listJ (fun (u, t) => Json.arr #[strJ u, listJ timedJ t]) ts
+  listJ (fun (u, t) => Json.arr #[sJ u, listJ timedJ t]) ts
 
 def ctmErrJ (e : CtmErr) : Json :=
-  objJ [("error", strJ (match e with | .key => "KeyError" | .value => "ValueError"))]
+  objJ [("error", sJ (match e with | .key => "KeyError" | .value => "ValueError"))]
 
 def strTriples (j : Json) : Except String (List (String × String × String)) :=
   jsonToList (fun x => do
@@ -134,8 +145,8 @@ def c11Ctm : Handler := fun c => do
   let written := writeCtm m ts
   let linesJ := match written with
     | .error e => ctmErrJ e
-    | .ok segs => listJ (fun (s : Seg) => Json.arr #[strJ s.wfn, strJ s.chan, ratToJson s.start,
-        ratToJson s.dur, strJ s.tok]) segs
+    | .ok segs => listJ (fun (s : Seg) => Json.arr #[sJ s.wfn, sJ s.chan, ratToJson s.start,
+        ratToJson s.dur, sJ s.tok]) segs
   let readJ := match written with
     | .error _ => Json.null
     | .ok segs => match readCtm w2u segs with
@@ -166,16 +177,18 @@ def c11Ctm : Handler := fun c => do
         decide (0 ≤ sg.start) && decide (0 ≤ sg.dur))
     | .error _ => false
   let readTextJ := match text with
-    | some t => ctmResJ (readCtmText w2u t)
+    | some t => ctmResJ (readCtmText w2u (universalNewlines t))
     | none => Json.null
   -- C11_ctm_text: on printable fields reading the characters = reading the records
   if fieldsOk && text.isSome && readTextJ.compress != readJ.compress then
     throw "internal: text-level read != record-level read inside the domain of C11_ctm_text"
   pure (objJ [("lines", linesJ), ("read", readJ), ("in_domain", boolJ inDom),
-    ("text", match text with | some t => strJ (String.ofList t) | none => Json.null),
+    ("text", match text with | some t => sJ (String.ofList t) | none => Json.null),
     ("fields_ok", boolJ fieldsOk),
     ("read_text", readTextJ),
-    ("read_crlf_raw", match text with | some t => ctmResJ (readCtmText w2u (crlf t)) | none => Json.null),
+    ("read_crlf_raw", match text with
+      | some t => ctmResJ (readCtmText w2u (universalNewlines (crlf t)))
+      | none => Json.null),
     ("spec", if inDom then transcriptsJ (specCtm wc ts) else Json.null)])
 
 /-- Hand-written ctm text (comments, confidence column, blank lines, odd spacing, malformed lines). -/
@@ -195,7 +208,7 @@ def c11CtmText : Handler := fun c => do
 
 /-! TextGrid -/
 def tgErrJ (e : TgErr) : Json :=
-  objJ [("error", strJ (match e with | .value => "ValueError" | .index => "IndexError"))]
+  objJ [("error", sJ (match e with | .value => "ValueError" | .index => "IndexError"))]
 
 def readResJ (r : Except TgErr (List Timed × Rat × Rat)) : Json :=
   match r with
@@ -247,8 +260,8 @@ def c11TextGrid : Handler := fun c => do
       | some r => readResJ r
       | none => objJ [("unparsed", boolJ true)]
     pure (objJ [
-      ("lines", listJ strJ f.render),
-      ("text", strJ (String.ofList chars)),
+      ("lines", listJ sJ f.render),
+      ("text", sJ (String.ofList chars)),
       ("text_domain", boolJ textDom),
       ("read_text", optReadJ (readTextGridText .byStart chars tier fill)),
       ("read_text_crlf", optReadJ (readTextGridText .byStart (crlf chars) tier fill)),
@@ -289,7 +302,7 @@ def c11TgDoc : Handler := fun c => do
   pure (objJ [
     ("read", readResJ (readTextGridDoc .byStart tiers tier fill)),
     ("read_nofill", readResJ nofill),
-    ("selected", match sel with | some t => strJ t.name | none => Json.null),
+    ("selected", match sel with | some t => sJ t.name | none => Json.null),
     ("fill_spec", match nofill, fill with
       | .ok (r, a, b), some ft => listJ timedJ (specFill ft b a r)
       | _, _ => Json.null)])
@@ -301,7 +314,7 @@ def jsonToTok (j : Json) : Except String Tok :=
   | _ => Tok.i <$> jsonToInt j
 
 def tokJ : Tok → Json
-  | .s v => strJ v
+  | .s v => sJ v
   | .i v => intJ v
 
 def jsonToTElem (j : Json) : Except String TElem :=
@@ -337,7 +350,7 @@ def c11Frames : Handler := fun c => do
     | none => pure none
     | some j => some <$> jsonToTok j
   match transcriptToToken t2i f unk t with
-  | .error _ => pure (objJ [("rows", objJ [("error", strJ "badId")]), ("back", Json.null)])
+  | .error _ => pure (objJ [("rows", objJ [("error", sJ "badId")]), ("back", Json.null)])
   | .ok rows =>
     let back := tokenToTranscript i2t f rows
     let shift : Rat := match f with | some q => q / 1000 | none => 1
@@ -355,7 +368,7 @@ def c11Frames : Handler := fun c => do
       ("spec", objJ [("within", boolJ within), ("shift", ratToJson shift)])])
 
 def c11Dispatch : Handler := fun _ => do
-  let row := fun (d : Dispatch) => (d.fn, objJ [("options", listJ strJ d.options), ("forwarded", listJ strJ d.forwarded)])
+  let row := fun (d : Dispatch) => (d.fn, objJ [("options", listJ sJ d.options), ("forwarded", listJ sJ d.forwarded)])
   pure (objJ [("table", objJ (dispatchTable.map row)), ("pinned_defects", objJ (pinnedDefects.map row))])
 
 def main : IO Unit := Proto.run [
